@@ -93,6 +93,12 @@ structure FS where
   idx : Bytes := []
   dats : List (Nat × Bytes) := []
   olds : List (Nat × Bytes) := []
+  /-- GHOST (not a file; no operation reads it): the numbers of the data files whose stored bytes left the configured
+      retention — removed by `removeDatFile` without backup — or were shadowed: `LoadBlockIndex` O_CREATEd a new file with
+      that number in the main directory while the original sits in `oldat/` (the known finding
+      `backup-shadowed-by-new-file`). "Within the configured retention" for a written record = its data-file number is
+      not in this list (`Spec.BlockStoreMap.keyLost`). -/
+  lost : List Nat := []
   deriving DecidableEq, Repr
 
 /-- the functions the store uses but does not define -/
@@ -188,7 +194,7 @@ def removeDatFile (o : Opts) (fs : FS) (i : Nat) : FS :=
   | none => fs
   | some content =>
     if o.backup then { fs with dats := AL.del fs.dats i, olds := AL.set fs.olds i content }
-    else { fs with dats := AL.del fs.dats i }
+    else { fs with dats := AL.del fs.dats i, lost := i :: fs.lost }
 
 /-! ## cache -/
 
@@ -436,7 +442,8 @@ def reopen (env : Env) (fs : FS) (o : Opts) : State × Out :=
   -- os.OpenFile(dat_fname(maxdatfileidx), O_RDWR|O_CREATE)
   let fs := match AL.get fs.dats a.maxdatfileidx with
     | some _ => fs
-    | none => { fs with dats := AL.set fs.dats a.maxdatfileidx [] }
+    | none => { fs with dats := AL.set fs.dats a.maxdatfileidx [],
+                        lost := if (AL.get fs.olds a.maxdatfileidx).isSome then a.maxdatfileidx :: fs.lost else fs.lost }
   let fs := loadCleanup o a.maxdatfileidx fs
   ({ fs := fs, opts := o, index := a.index, maxidxfilepos := a.maxidxfilepos, maxdatfilepos := a.maxdatfilepos,
      maxdatfileidx := a.maxdatfileidx, isOpen := true }, .walk a.walk.reverse)
